@@ -517,8 +517,24 @@ def step (st : St) (l : Line) : St × List Msg :=
         (if c.predictedLost then [Msg.flag "conc-model-predicts-lost-put"] else []),
         if c.bad.isEmpty ∧ stuck.isEmpty ∧ c.s.threads.all (fun t => t.prog.isEmpty) then some c.s else none)
     -- (5) C12: the back-pressure model run on the same schedule blocks and releases the same writers
+    -- The store's own flusher goroutine is not under the scheduler: when one of its hook points is logged while a scheduled thread
+    -- is between a release and its next park, the two ran in parallel and the log does not order their sections (seen once in
+    -- 20 000 schedules: a writer registered on the notice the flusher was about to close, and its park was logged after the
+    -- flusher's `notified`). The tie is evaluated only on schedules where the flusher ran while every scheduled thread was parked.
+    let flusherParallel : Bool := (evs.foldl (fun (acc : Option String × Bool) ev =>
+        let (running, bad) := acc
+        match ev.splitOn ":" with
+        | [t, "go", _] => (some t, bad)
+        | _ =>
+          if ev.startsWith "flusher@" then (running, bad || running.isSome)
+          else match ev.splitOn "@" with
+            | [t, _] => (if running == some t then none else running, bad)
+            | _ => match ev.splitOn ":" with
+              | [t, "ret", _, _] => (if running == some t then none else running, bad)
+              | [t, "done"] => (if running == some t then none else running, bad)
+              | _ => (running, bad)) (none, false)).2
     let rateMsgs : List Msg :=
-      if st.profile ≠ "c12" ∨ l.args.get "locks" = "1" ∨
+      if st.profile ≠ "c12" ∨ l.args.get "locks" = "1" ∨ flusherParallel ∨
          evs.any (fun e => match e.splitOn ":blocked:" with | [_, pt] => pt ≠ "store.flushtick.waiting" | _ => false) then [] else
       let ws := (st.programs.filter fun (_, ops) => ops.all fun o => (concOfOp o).isSome).map (·.1)
       let fs := "flusher" :: (st.programs.filter fun (_, ops) => ops.all (· == "flush")).map (·.1)
